@@ -108,7 +108,7 @@ def run_case(case, extra=None):
         import inputparser, simulation, program.distribution, cli.actions.simulation_action  # noqa
         from . import c12, rngseam  # noqa
         _preloaded = True
-    r = world.fork_call(_run_in_child, case, timeout=300)
+    r = world.fork_call(_run_in_child, case, timeout=90)
     if r.get("status") in ("child_timeout", "child_died"):
         return {"outcome": "timeout" if r["status"] == "child_timeout" else "harness_error", "kind": case["kind"], "trace": r["status"]}
     if r.get("status") == "harness_error":
